@@ -16,8 +16,16 @@ def one(d):
     wt = f"/tmp/wt-recheck-{os.getpid()}-{meta['seed']}"
     subprocess.run(["git", "-C", "/repo", "worktree", "add", "--detach", wt, "HEAD"], check=True, capture_output=True)
     try:
-        subprocess.run(["git", "-C", wt, "apply", os.path.join(d, "patch.diff")], check=True)
         t0 = time.time()
+        ap = subprocess.run(["git", "-C", wt, "apply", os.path.join(d, "patch.diff")], capture_output=True, text=True)
+        if ap.returncode != 0:
+            ap = subprocess.run(["git", "-C", wt, "apply", "--3way", os.path.join(d, "patch.diff")], capture_output=True, text=True)
+        if ap.returncode != 0:
+            # a later fix: commit rewrote the lines the seeded change touches
+            meta["recheck"] = {"check": pid, "result": "patch no longer applies to /repo's HEAD", "exit": None, "wall_s": 0}
+            json.dump(meta, open(meta_p, "w"), indent=1)
+            print(meta["seed"], pid, "patch no longer applies", flush=True)
+            return (meta["seed"], pid, "patch no longer applies")
         # evidence / replay files of concurrent runs of the same property would collide: give each run its own seed number
         env = dict(os.environ, MOSAIK_SRC=wt, VERIF_SEED=str(1000 + abs(hash(meta["seed"])) % 9000))
         r = subprocess.run([f"{V}/check", pid], capture_output=True, text=True, cwd=V, env=env)
@@ -34,7 +42,7 @@ def one(d):
 with ThreadPoolExecutor(jobs) as ex:
     rows = list(ex.map(one, sorted(glob.glob(f"{V}/seeded/*/"))))
 subprocess.run(["git", "-C", "/repo", "worktree", "prune"])
-print(sum(1 for r in rows if r[2] != "missed"), "of", len(rows), "detected;",
+print(sum(1 for r in rows if r[2].startswith("detected")), "of", sum(1 for r in rows if not r[2].startswith("patch")), "applicable seeds detected;",
       sum(1 for r in rows if r[2].startswith("detected with")), "with a concrete failing input")
 for r in rows:
     if not r[2].startswith("detected with"):
